@@ -35,13 +35,30 @@ Theorem C22_prune_keeps_live : forall fuel r lim r',
 Proof. exact prune_keeps_live. Qed.
 Print Assumptions C22_prune_keeps_live.
 
-(* RepackObjects (with or without age limit for old packs): the same. *)
-Theorem C22_repack_keeps_live : forall fuel r lim r',
-  wf_modes r = true -> wf_index r = true ->
-  repack fuel r lim = Ok r' ->
+(* RepackObjects (with or without age limit for old packs), whatever name the
+   encoder gives the new pack — also when a pack of that name is already on disk
+   (PackWriter.save keeps it, `if h == nh { continue }` must not delete it).
+   wf_names: content addressing, a pack's name determines its object set. *)
+Theorem C22_repack_keeps_live : forall fuel r lim variant r',
+  wf_modes r = true -> wf_index r = true -> wf_names r = true ->
+  repack fuel r lim variant = Ok r' ->
   forall h, live r h -> has r h = true -> has r' h = true /\ get r' h = get r h.
 Proof. exact repack_keeps_live. Qed.
 Print Assumptions C22_repack_keeps_live.
+
+(* Arbitrary HISTORIES of prune / repack rounds (any age limits, any encoder
+   variants, the same name produced twice included), with new loose objects
+   and newly staged blobs in between: at every point of the history, every
+   object that is live and readable then is readable, with the same content, at
+   the end.  A failed round changes nothing.
+   op_ok: a staged object is a blob (boolean). *)
+Theorem C22_history_keeps_live : forall a b r,
+  wf_modes r = true /\ wf_index r = true /\ wf_names r = true ->
+  forallb (op_ok r) (a ++ b) = true ->
+  forall h, live (run_seq a r) h -> has (run_seq a r) h = true ->
+  has (run_seq (a ++ b) r) h = true /\ get (run_seq (a ++ b) r) h = get (run_seq a r) h.
+Proof. exact history_keeps_live. Qed.
+Print Assumptions C22_history_keeps_live.
 
 (* The fuel the model gives the walker (one unit per object id it can ever
    meet, plus one) always suffices: exhaustion is never reported, for every
@@ -57,28 +74,37 @@ Print Assumptions C22_walk_fuel_sufficient.
 Definition ex_repo : repo :=
   {| objs := [(0, OBlob); (1, OTree [(33188%Z, 0)]); (2, OCommit 1 []); (3, OBlob); (4, OBlob); (5, OBlob)];
      loose := [(0, true); (1, true); (2, true); (3, true); (4, true)];
-     packs := [{| p_old := true; p_promisor := false; p_objs := [5; 0] |}];
+     packs := [{| p_name := ([0; 5], 7); p_old := true; p_promisor := false; p_objs := [5; 0] |}];
      roots := [2]; shallow := []; index := [(false, 0); (false, 3); (false, 5)] |}.
 
-Example C22_ex_wf : wf_modes ex_repo = true /\ wf_index ex_repo = true.
-Proof. vm_compute. split; reflexivity. Qed.
+Example C22_ex_wf : wf_modes ex_repo = true /\ wf_index ex_repo = true /\ wf_names ex_repo = true.
+Proof. vm_compute. repeat split. Qed.
 
 Example C22_ex_prune :
-  c22_run true false ex_repo
-  = OOk [OList (map ON [0; 1; 2; 3]); OList (map ON [0; 5])].
+  c22_run [GPrune false] ex_repo
+  = OList [OOk [OList (map ON [0; 1; 2; 3]); OList (map ON [0; 5])]].
 Proof. vm_compute. reflexivity. Qed.
 
-Example C22_ex_repack :
-  c22_run false false ex_repo
-  = OOk [OList (map ON [4]); OList (map ON [0; 1; 2; 3; 5])].
+(* three repacks in a row: the second and the third produce the name of the pack
+   the first one wrote; nothing is lost (blob 4 is dangling and loose) *)
+Example C22_ex_repack_thrice :
+  c22_run [GRepack false 0; GRepack false 0; GRepack false 0] ex_repo
+  = OList [OOk [OList (map ON [4]); OList (map ON [0; 1; 2; 3; 5])];
+           OOk [OList (map ON [4]); OList (map ON [0; 1; 2; 3; 5])];
+           OOk [OList (map ON [4]); OList (map ON [0; 1; 2; 3; 5])]].
 Proof. vm_compute. reflexivity. Qed.
+
+Example C22_ex_same_name_twice :
+  map p_name (packs (run_seq [GRepack false 0; GRepack false 0] ex_repo)) = [([0; 1; 2; 3; 5], 0)] /\
+  map p_name (packs (run_seq [GRepack false 0] ex_repo)) = [([0; 1; 2; 3; 5], 0)].
+Proof. vm_compute. split; reflexivity. Qed.
 
 (* recorded observation: a tree entry of mode symlink reaches walkObjectTree's
    default branch ("unknown object") and aborts the whole operation — nothing
    is deleted, so this is not a violation of the property *)
 Example C22_symlink_aborts :
-  c22_run true false
+  c22_run [GPrune false]
     {| objs := [(0, OBlob); (1, OTree [(40960%Z, 0)]); (2, OCommit 1 [])];
        loose := [(0, true); (1, true); (2, true)]; packs := []; roots := [2]; shallow := []; index := [] |}
-  = OErr "walk".
+  = OList [OErr "walk"].
 Proof. vm_compute. reflexivity. Qed.
